@@ -2,6 +2,8 @@ CONSTANTS
   Reqs = {r1, r2, r3}
   MaxReq = 2
   MaxRetry = 1
+  Updates <- UpdAny
+  MaxUpd = 2
   Defects = {}
 SPECIFICATION Spec
 INVARIANTS Conserved NonNeg IdleZero TripsExact
